@@ -155,6 +155,15 @@ ActLoop(i, A, S) ==
              A1 == [A EXCEPT !.calls = @ \o <<"h" \o ToString(me), "a" \o ToString(me)>>]
          IN ActLoop(i + 1, DoPlans(todo, A1), S)
 
+ModelId == 0 - 1        \* "sender" of the actions planned for Model.end_round
+RECURSIVE EndPlans(_, _)
+EndPlans(todo, reg) ==
+    IF todo = <<>> THEN reg
+    ELSE LET p == Head(todo) IN
+         EndPlans(Tail(todo), [i \in DOMAIN reg |-> IF reg[i].id = p.eid
+                                                       THEN (IF p.kind = "est" THEN [reg[i] EXCEPT !.st = p.arg] ELSE [reg[i] EXCEPT !.v = p.arg])
+                                                       ELSE reg[i]])
+
 \* S = [agents, mq, step, evs, nsent, plan, nid, tm]; returns the new S plus what the step did
 StepF(S) ==
     LET dueQ   == SelectSeq(S.mq, LAMBDA q : q.rem = 0)
@@ -168,6 +177,10 @@ StepF(S) ==
         clean  == [i \in DOMAIN ags1 |-> [ags1[i] EXCEPT !.inbox = <<>>]]
         A      == ActLoop(1, [iter |-> clean, reg |-> clean, rebound |-> FALSE, nid |-> S.nid, tm |-> S.tm,
                               fired |-> <<>>, calls |-> <<"begin">>, gone |-> {}, born |-> {}], S)
+        \* Model.end_round runs after every agent has acted and BEFORE the statistics of the step are collected: what it changes
+        \* (planned here: the state / value of one agent) is part of the population the statistics describe
+        endTodo == SelectSeq(S.plan, LAMBDA x : x.snd = ModelId /\ x.k = S.step)
+        regEnd == EndPlans(endTodo, A.reg)
         fired  == A.fired                                         \* in agent order, then plan order
         evs2   == [e \in DOMAIN S.evs |->
                      IF \E k \in DOMAIN fired : fired[k] = e
@@ -180,7 +193,7 @@ StepF(S) ==
         dueAlive == {e \in {due[i] : i \in DOMAIN due} :
                         S.evs[e].rcv \in Ids(S.agents)
                         /\ Handles(S.agents[Pos(S.evs[e].rcv, S.agents)].st, S.evs[e].name)}
-    IN [S |-> [agents |-> A.reg, mq |-> newQ \o later, step |-> S.step + 1, evs |-> evs2,
+    IN [S |-> [agents |-> regEnd, mq |-> newQ \o later, step |-> S.step + 1, evs |-> evs2,
                nsent |-> S.nsent + Len(fired), plan |-> S.plan, nid |-> A.nid, tm |-> A.tm],
         handled |-> hNow, calls |-> A.calls \o <<"end">>, due |-> {due[i] : i \in DOMAIN due}, dueAlive |-> dueAlive,
         gone |-> A.gone, born |-> A.born, estats |-> estats]
@@ -278,6 +291,12 @@ PlanSet(snd, kind, x, k) ==     \* agent snd will set its own state / value from
     /\ UNCHANGED <<agents, nextId, tmap, mq, step, evs, nsent, handled, alive, dt>>
     /\ Log([op |-> "PlanSet", snd |-> snd, kind |-> kind, x |-> x, k |-> k])
 
+PlanEnd(kind, target, x, k) ==  \* Model.end_round will set the state / value of agent target in step k
+    /\ "PlanEnd" \in Ops /\ target \in Ids(agents) /\ k >= step /\ Len(plan) < MaxPlans
+    /\ plan' = Append(plan, [snd |-> ModelId, kind |-> kind, eid |-> target, k |-> k, arg |-> x])
+    /\ UNCHANGED <<agents, nextId, tmap, mq, step, evs, nsent, handled, alive, dt>>
+    /\ Log([op |-> "PlanEnd", kind |-> kind, target |-> target, x |-> x, k |-> k])
+
 Apply(r) ==
     /\ agents' = r.S.agents /\ mq' = r.S.mq /\ step' = r.S.step /\ evs' = r.S.evs
     /\ nsent' = r.S.nsent /\ plan' = r.S.plan /\ nextId' = r.S.nid /\ tmap' = r.S.tm
@@ -341,10 +360,12 @@ DoPlanDel   == \E snd \in 0..(nextId - 1), victim \in 0..(nextId - 1), k \in ste
 DoPlanNew   == \E snd \in 0..(nextId - 1), ty \in Types, k \in step..(step + PlanAhead) : PlanNew(snd, ty, k)
 DoPlanSet   == \E snd \in 0..(nextId - 1), k \in step..(step + PlanAhead) :
                   (\E st \in States : PlanSet(snd, "st", st, k)) \/ (\E v \in Vals : PlanSet(snd, "val", v, k))
+DoPlanEnd   == \E target \in 0..(nextId - 1), k \in step..(step + PlanAhead) :
+                  (\E st \in States : PlanEnd("est", target, st, k)) \/ (\E v \in Vals : PlanEnd("eval", target, v, k))
 DoRun       == \E rs \in RunSpecs : Run(rs)
 
 Next == DoCreate \/ DoDelete \/ DoConfigure \/ Reset \/ DoSetState \/ DoSetVal \/ DoSend \/ DoPlan
-        \/ DoPlanDel \/ DoPlanNew \/ DoPlanSet \/ RunStep \/ DoRun
+        \/ DoPlanDel \/ DoPlanNew \/ DoPlanSet \/ DoPlanEnd \/ RunStep \/ DoRun
 
 Spec == Init /\ [][Next]_vars
 
